@@ -23,7 +23,8 @@ def main():
         if pid in NOT_APPLICABLE:
             na.append({"property_id": pid, "reason": NOT_APPLICABLE[pid]})
             continue
-        if not os.path.exists(path):
+        ready = open(os.path.join(VERIF, "driver", "ready.txt")).read().split()
+        if not os.path.exists(path) or pid not in ready:
             na.append({"property_id": pid, "reason": "no specification-bound check has been built for this property yet (planned in DESIGN.md section 5); it is not claimed"})
             continue
         mod = importlib.import_module("props." + pid.lower())
